@@ -33,10 +33,18 @@ package cty
 //@   frame_only
 //@   writes cty.tupleElementIterator it
 //
+// The mark sets that UnmarkDeepWithPaths hands out are copies: an entry appended to the collected list
+// carries a mark map that this call allocated (Unmark returns a fresh map), never the map stored inside
+// the value (C20: mutating a returned mark set cannot change the value).
 //@ func (*cty.unmarkTransformer).Enter
 //@   tags C20
 //@   frame_only
+//@   requires (and (not (= t 0)) (wf_marks v))
 //@   writes cty.unmarkTransformer t
+//@   let P0 (old (cty.unmarkTransformer.pvm ($at<cty.unmarkTransformer> t)))
+//@   let P (cty.unmarkTransformer.pvm ($at<cty.unmarkTransformer> t))
+//@   ensures[C20] own_marks: (=> (> (Slice.len P) (Slice.len P0)) (< (cty.PathValueMarks.Marks (select ($at<Arr<cty.PathValueMarks>> (Slice.ptr P)) (+ (Slice.off P) (- (Slice.len P) 1)))) 0))
+//@   ensures[C20] grows_by_one: (<= (Slice.len P) (+ (Slice.len P0) 1))
 //
 // The bytes hashed for a number are the ten-digit text of its value (C03: equal numbers hash alike
 // whatever the precision of their representation).
